@@ -315,10 +315,10 @@ theorem blockSwitch_sim (bd : Impl.BlockDec) (b : Blocks) (h : BlkRel bd b) (h2 
     SimRel (fun bd' b' => BlkRel bd' b' ∧ bd'.prefixes = bd.prefixes)
       (Impl.readBlockSwitch bd) (Brotli.readBlockSwitch b) := by
   obtain ⟨hn, hn1, hn256, ht0, ht1, hcur, hprev, hcodes, _⟩ := h
-  obtain ⟨hT, hL, hlen⟩ := hcodes h2
+  obtain ⟨hT, hL⟩ := hcodes h2
   have hprev := hprev h2
   unfold Impl.readBlockSwitch Brotli.readBlockSwitch
-  rw [if_neg (show ¬ b.ntypes < 2 by omega)]
+  rw [if_neg (show ¬ b.ntypes < 2 by omega), if_neg (show ¬ bd.numTypes < 2 by omega)]
   refine SimRel.bind (codeRel_sim hT) fun t t' htt => ?_
   obtain ⟨htt, hlt⟩ := htt
   subst htt
@@ -329,8 +329,17 @@ theorem blockSwitch_sim (bd : Impl.BlockDec) (b : Blocks) (h : BlkRel bd b) (h2 
     fun len len' hlen' => ?_
   subst hlen'
   have hty := switchType_eq bd.numTypes bd.type0 bd.type1 b.ntypes b.cur b.prev t hn ht0 ht1 hcur hprev hn256 hlt
-  exact SimRel.pure ⟨⟨hn, hn1, hn256, hty.1, ht0, hty.2, fun _ => hcur, fun _ => ⟨hT, hL, rfl⟩,
-    fun h => absurd (show b.ntypes < 2 from h) (by omega)⟩, rfl⟩
+  exact SimRel.pure ⟨⟨hn, hn1, hn256, hty.1, ht0, hty.2, fun _ => hcur, fun _ => ⟨hT, hL⟩, rfl⟩, rfl⟩
+
+/-- a block switch in a category with a single block type: both sides refuse at once (Go:
+    errCorrupted; the specification: `corrupt`), whatever the relation. -/
+theorem blockSwitch_single (bd : Impl.BlockDec) (b : Blocks) (h : BlkRel bd b) (h1 : b.ntypes < 2)
+    {R : Impl.BlockDec → Blocks → Prop} :
+    SimRel R (Impl.readBlockSwitch bd) (Brotli.readBlockSwitch b) := by
+  have hn : bd.numTypes < 2 := by rw [h.1]; exact h1
+  unfold Impl.readBlockSwitch Brotli.readBlockSwitch
+  rw [if_pos h1, if_pos hn]
+  exact SimRel.fail (fun r => ⟨_, r, rfl, by decide⟩) (fun s => ⟨_, s, rfl, rfl⟩)
 
 /-- the head of `readPrefixCodes` for one category = NBLTYPESx, HTREE_BTYPEx, HTREE_BLENx, BLENx of
     section 9.2.
@@ -357,7 +366,7 @@ theorem blockDec_sim (hP : PrefixSim) (hC : CountsSim) (bd0 : Impl.BlockDec) :
     · show 0 < n; omega
     · intro h; exact absurd (show 2 ≤ n from h) (by omega)
     · intro h; exact absurd (show 2 ≤ n from h) (by omega)
-    · intro _; show (-1 : Int) < 0; decide
+    · show ((2 : Int) ^ 24) = ((2 ^ 24 : Nat) : Int); rfl
   · rw [if_neg h2, if_pos (show n ≥ 2 by omega)]
     refine SimRel.bind (hP (n + 2) (by omega) (by omega)) fun dT cT hT => ?_
     refine SimRel.bind (hP 26 (by omega) (by omega)) fun dL cL hL => ?_
@@ -367,11 +376,10 @@ theorem blockDec_sim (hP : PrefixSim) (hC : CountsSim) (bd0 : Impl.BlockDec) :
     refine SimRel.bind (readOffset_sim blockCountRanges l (by rw [blockCountRanges_size]; exact hl26))
       fun len len' hlen' => ?_
     subst hlen'
-    refine SimRel.pure ⟨⟨rfl, hn1, hn256, rfl, rfl, ?_, ?_, ?_, ?_⟩, ?_, rfl⟩
+    refine SimRel.pure ⟨⟨rfl, hn1, hn256, rfl, rfl, ?_, ?_, ?_, rfl⟩, ?_, rfl⟩
     · show 0 < n; omega
     · intro _; show 1 < n; omega
-    · intro _; exact ⟨hT, hL, rfl⟩
-    · intro h; exact absurd (show n < 2 from h) h2
+    · intro _; exact ⟨hT, hL⟩
     · intro h; exact absurd (show n < 2 from h) h2
 
 end Compress.Proofs.BrImpl
